@@ -2,11 +2,17 @@ ENTRY = {
     "level": "proof",
     "families": [
         fam("C03", 160, 8000),
-        fam("SQL", 200, 10000, driver="SQL",
-            opts={"quick": {"prop": "C03", "mode": "meta", "cfgs": "mem1,mem1+noopt,pq2x7,pq2x7+noopt",
-                            "strata": "filter,case,join,agg,distinct,setop,cte,values,gsets,sort_limit", "deny": "subquery", "types": "i64,f64,date,bool,i64"},
-                  "thorough": {"prop": "C03", "mode": "meta", "cfgs": "mem1,mem1+noopt,memb,memb+noopt,pq2x7,pq2x7+noopt,pq1x0+only:JoinReorder,pq1x0+without:JoinReorder",
-                               "strata": "filter,case,join,agg,distinct,setop,cte,values,gsets,sort_limit", "deny": "subquery", "types": "i64,f64,date,bool,i64"}}),
+        # the shared SQL generator in meta mode: optimized vs unoptimized inside ONE layout (cross-layout differences are C04's)
+        fam("SQL", 150, 10000, driver="SQL",
+            opts={"quick": {"prop": "C03", "mode": "meta", "cfgs": "mem1,mem1+noopt",
+                            "strata": "filter,case,join,agg,distinct,setop,cte,values,sort_limit", "deny": "subquery,gsets", "types": "i64,f64,date,bool,i64"},
+                  "thorough": {"prop": "C03", "mode": "meta", "cfgs": "mem1,mem1+noopt,memb,memb+noopt,mem1+only:JoinReorder,mem1+without:JoinReorder",
+                               "strata": "filter,case,join,agg,distinct,setop,cte,values,sort_limit", "deny": "subquery,gsets", "types": "i64,f64,date,bool,i64"}}),
+        fam("SQL", 150, 10000, driver="SQL",
+            opts={"quick": {"prop": "C03", "mode": "meta", "cfgs": "pq2x7,pq2x7+noopt", "nulls": "0",
+                            "strata": "filter,case,join,agg,distinct,setop,cte,values,sort_limit", "deny": "subquery,gsets", "types": "i64,f64,date,bool,i64"},
+                  "thorough": {"prop": "C03", "mode": "meta", "cfgs": "pq2x7,pq2x7+noopt,pq1x0,pq1x0+noopt", "nulls": "0",
+                               "strata": "filter,case,join,agg,distinct,setop,cte,values,sort_limit", "deny": "subquery,gsets", "types": "i64,f64,date,bool,i64"}}),
     ],
     "gen_items": ["GroupKeyReduction::unique_key_gate", "ParquetTable::ndv_est_int", "PackedJoinKeys::pj_max2", "PackedJoinKeys::pj_k",
                   "PackedJoinKeys::pj_max1", "PackedJoinKeys::pj_overflow", "PackedGroupKeys::pg_k", "PackedGroupKeys::pg_overflow",
@@ -17,8 +23,9 @@ ENTRY = {
             "2^k-2 .. 2^k+1, negative keys, first keys near i64::MAX/4, same column names in both tables, derived columns b+c / b*c / a+c re-using a base column's name), "
             "packgroup / packgroup_shadow, eager (duplicated join keys, dual keys, nullable factors, SUM of products / sums / differences). Every statement runs unoptimized, "
             "with the production optimizer (with and without statistics, and through ExecutionContext::sql) and with each statistics-driven rule alone; plans are exported. "
-            "family SQL (shared generator, meta mode): optimized vs unoptimized over memory and Parquet, all strata but subqueries (the unoptimized engine cannot run IN/EXISTS), "
-            "no VARCHAR columns (string join keys / NULL strings hit executor defects listed under C22). non-trivial = some rule changed the plan; distinct by sha256 of the case",
+            "family SQL (shared generator, meta mode; two runs): optimized vs unoptimized over memory tables, and over Parquet files with NULL-free data (a nullable GROUP BY "
+            "key over Parquet takes different aggregation paths: C21/C04); all strata but subqueries and grouping sets (the unoptimized engine cannot run IN/EXISTS and does not "
+            "bind GROUPING), no VARCHAR columns (CROSS JOIN loses the NULLs of a left-side VARCHAR column: reported to C22). non-trivial = some rule changed the plan; distinct by sha256 of the case",
     "trusted_base": COMMON_TB + [
         "plan exporter + decoder (planexport.rs, Driver/PlanJson.lean)",
         "translator prelude of the gates: absDiff, nextPow2 (hand-written Lean models of i64::abs_diff / u64::checked_next_power_of_two, tested by translator/selftest)",
@@ -42,9 +49,10 @@ ENTRY = {
                 "every statistics-driven rule alone and the production order over memory and Parquet tables with adversarial statistics, plus the shared SQL generator in "
                 "meta mode; the translated gates are cross-checked against the rules' behaviour on the real footer statistics.",
         "design_ref": "DESIGN.md §6 C03",
-        "level_note": "Proof of the rewrite library and of the gates + differential correspondence; not a proof that each Rust rule only applies these rewrites. Known findings: "
-                      "C03-F1 (unique key inferred from an estimate, open), C03-F2 (bounds by unqualified name, fix proposed), C03-F4 (eager aggregation integer SUM -> NULL, fix "
-                      "proposed), C03-F3 (OR factoring, fixed 2941c55).",
+        "level_note": "Proof of the rewrite library and of the gates + differential correspondence; not a proof that each Rust rule only applies these rewrites. Findings: "
+                      "C03-F1 (unique key inferred from an estimate) open; fixed during this work: C03-F2 pack bounds by unqualified name (3d7ebfd), C03-F3 OR factoring (2941c55), "
+                      "C03-F4 eager aggregation integer SUM -> NULL (0ffae9f), C03-F5 packed group keys over a computed key (6d04930), C03-F6 runtime join filter through a computing "
+                      "projection (37d79b8); LIMIT as a push-down barrier (858a9cb, found by C43).",
         "technique": "Lean 4 proofs over the reference SQL semantics and translated gate code + differential testing of optimizer configurations",
     },
 }
